@@ -230,7 +230,7 @@ func sm2P256GetScalar(b *[32]byte, a []byte) {
 		n.Mod(n, sm2P256.N)
 		scalarBytes = n.Bytes()
 	} else {
-		scalarBytes = a
+		scalarBytes = n.Bytes() // canonical length: a may carry leading zero bytes
 	}
 	for i, v := range scalarBytes {
 		b[len(scalarBytes)-(1+i)] = v
